@@ -5,7 +5,11 @@ inner end with bytes owed -> error never a clean end, inner error -> error);
 budget end-start (single body and every multipart part); (R3) from the post-state
 of an error return of the multipart stream no path emits the trailer or further
 data (second analysis started from each terminal post-state); (R4) the injected
-errors are built with From<BoxError>.  Does not decide: what hyper does with the
+errors are built with From<BoxError>; (R5) the layers above those streams -
+`Body::poll_frame` and the body stream enum's `poll_next` - poll the wrapped
+stream exactly once on every path and hand its answer on unchanged (they never
+answer from their own bookkeeping, so the too-short / too-long verdict and an
+error after the last byte reach the consumer).  Does not decide: what hyper does with the
 error."""
 from . import bodyrules as BR
 from . import multipart as MP
@@ -21,3 +25,4 @@ def run(ctx):
     MP.constructor_inv(ctx, "C07.R3")
     MP.stream_invariant(ctx, "C07.R3")
     BR.error_injection(ctx, "C07.R4")
+    BR.layers_transparent(ctx, "C07.R5")
